@@ -234,6 +234,16 @@ class Fn(object):
         self.params = [p['name'] for p in d['params']]
         self.param_info = d['params']
         self.blocks = {b['id']: b for b in d.get('blocks', [])}
+        # `x += 1`, `x -= 1` and `x = x + 1` are the same step as ++ / --
+        for b in self.blocks.values():
+            for ev in b['events']:
+                if ev.get('k') == 'store' and ev.get('op') in ('+=', '-=') and const_of(ev.get('rhs')) == 1:
+                    ev['orig_op'] = ev['op']
+                    ev['op'] = '++' if ev['op'] == '+=' else '--'
+                elif ev.get('k') == 'store' and ev.get('op') == '=' and isinstance(ev.get('rhs'), dict) and ev['rhs'].get('k') == 'bin' \
+                        and ev['rhs']['op'] in ('+', '-') and const_of(ev['rhs']['r']) == 1 and sx(ev['rhs']['l']) == sx(ev.get('lhs')):
+                    ev['orig_op'] = '='
+                    ev['op'] = '++' if ev['rhs']['op'] == '+' else '--'
         self.entry, self.exit = d.get('entry'), d.get('exit')
         self.out = collections.defaultdict(list)
         self.inn = collections.defaultdict(list)
@@ -362,6 +372,44 @@ class Fn(object):
         if ev.get('op') == '=':
             return ds[0], ev['rhs']
         return None
+
+    def no_store_between(self, d, s, names):
+        """No store to any variable in `names` can execute after site d and before site s."""
+        if d.bid == s.bid and d.idx < s.idx:
+            mid = [t for t in self.block_sites(d.bid)[d.idx + 1:s.idx]]
+            blocks = set()
+        else:
+            after_d = self.reach([e.dst for e in self.out[d.bid]])
+            blocks = {b for b in after_d if s.bid in self.reach([b])} - {d.bid, s.bid}
+            mid = self.block_sites(d.bid)[d.idx + 1:] + self.block_sites(s.bid)[:s.idx]
+            for b in blocks:
+                mid += self.block_sites(b)
+        for t in mid:
+            ev = t.ev
+            if ev['k'] == 'store' and is_var(ev.get('lhs')) and ev['lhs']['name'] in names:
+                return False
+            if ev['k'] == 'call':
+                for a in ev['args']:
+                    if isinstance(a, dict) and a.get('k') == 'un' and a['op'] == '&' and is_var(a['e']) and a['e']['name'] in names:
+                        return False
+        return True
+
+    def expand_local(self, e, site, depth=0):
+        """Replace a single-definition local by its defining expression when the definition dominates
+        `site` and none of the variables it reads is stored to in between."""
+        if not isinstance(e, dict) or depth > 3:
+            return e
+        if e.get('k') == 'var' and e.get('sc') == 'local':
+            d = self.single_def(e['name'])
+            if d and (d[0].bid == site.bid and d[0].idx < site.idx or (d[0].bid != site.bid and self.dominates(d[0].bid, site.bid))) \
+                    and self.no_store_between(d[0], site, vars_in(d[1])):
+                return self.expand_local(d[1], site, depth + 1)
+            return e
+        out = dict(e)
+        for k in CHILD_KEYS:
+            if isinstance(e.get(k), dict):
+                out[k] = self.expand_local(e[k], site, depth)
+        return out
 
     # ---- reachability ----------------------------------------------------------
     def reach(self, start, cut_edges=(), cut_blocks=()):
